@@ -35,10 +35,23 @@ type HarnessSpec struct {
 	Schedule bool             `json:"schedule"`
 	Race     bool             `json:"race"`
 	NoReplay bool             `json:"no_replay"`
+	Discover *DiscoverSpec    `json:"discover"`
+	Lists    map[string][]string `json:"-"` // filled by the discovery pass
+	Optional bool             `json:"optional"` // white-box lemma about an internal function: skipped with a notice when that function no longer exists
 	HangIsViolation bool      `json:"hang_is_violation"`
 	Stubs    map[string]string `json:"stubs"`
 	MaxPaths map[string]int   `json:"max_paths"`
 	Note     string           `json:"note"`
+}
+
+// DiscoverSpec: before the harness runs, Fn is explored (engine only) and the
+// string keys it looks up in traced maps are collected into the list Name,
+// which both functions read with verifrt.Strings(Name); repeated until the
+// list stops growing or Rounds is reached.
+type DiscoverSpec struct {
+	Name   string `json:"name"`
+	Fn     string `json:"fn"`
+	Rounds int    `json:"rounds"`
 }
 
 type Sidecar struct {
@@ -68,6 +81,7 @@ type RunConfig struct {
 	ProfileForks   bool
 	HangIsViolation bool
 	Harness        string
+	Lists          map[string][]string
 }
 
 type WhereAtom struct {
@@ -137,6 +151,9 @@ type Loaded struct {
 	pkgs     []*packages.Package
 	overlay  map[string][]byte
 	overlayFiles map[string]string // virtual -> real
+	dropped  map[string]string // harness files left out: real path -> first error
+	unavailable []string       // required harnesses that could not be run
+	skipped  []string          // optional harnesses skipped
 }
 
 func harnessOverlay(pkgs []string) (map[string][]byte, map[string]string, error) {
@@ -202,19 +219,50 @@ func loadProgram(sc *Sidecar) (*Loaded, error) {
 		Env:        append(os.Environ(), "GOFLAGS=-mod=mod", "GOPROXY=off", "GOSUMDB=off", "GOTOOLCHAIN=local"),
 	}
 	patterns := []string{"./..."}
-	pkgs, err := packages.Load(cfg, patterns...)
-	if err != nil {
-		return nil, err
-	}
-	nerr := 0
-	packages.Visit(pkgs, nil, func(p *packages.Package) {
-		for _, e := range p.Errors {
-			fmt.Fprintln(os.Stderr, "load error:", e)
-			nerr++
+	// A harness file that no longer compiles against the current source (it
+	// names an unexported identifier that was renamed or removed) is left
+	// out, so that the harnesses in the other files still decide what they can.
+	dropped := map[string]string{}
+	var pkgs []*packages.Package
+	for attempt := 0; ; attempt++ {
+		pkgs, err = packages.Load(cfg, patterns...)
+		if err != nil {
+			return nil, err
 		}
-	})
-	if nerr > 0 {
-		return nil, fmt.Errorf("%d package load errors", nerr)
+		var errs []packages.Error
+		packages.Visit(pkgs, nil, func(p *packages.Package) {
+			errs = append(errs, p.Errors...)
+		})
+		if len(errs) == 0 {
+			break
+		}
+		bad := map[string]string{}
+		foreign := false
+		for _, e := range errs {
+			file := e.Pos
+			if i := strings.Index(file, ":"); i >= 0 {
+				file = file[:i]
+			}
+			if _, isHarness := ov[file]; isHarness && !strings.Contains(file, "/verifrt/") {
+				if _, seen := bad[file]; !seen {
+					bad[file] = e.Msg
+				}
+			} else {
+				foreign = true
+			}
+		}
+		if foreign || len(bad) == 0 || attempt >= 3 {
+			for _, e := range errs {
+				fmt.Fprintln(os.Stderr, "load error:", e)
+			}
+			return nil, fmt.Errorf("%d package load errors", len(errs))
+		}
+		for file, msg := range bad {
+			fmt.Printf("NOTE: harness file %s does not compile against the current source and is left out (%s)\n", files[file], msg)
+			dropped[files[file]] = msg
+			delete(ov, file)
+			delete(files, file)
+		}
 	}
 	prog, _ := ssautil.AllPackages(pkgs, ssa.InstantiateGenerics)
 	prog.Build()
@@ -222,11 +270,14 @@ func loadProgram(sc *Sidecar) (*Loaded, error) {
 	for callee, repl := range sc.Stubs {
 		f := findFunc(prog, repl)
 		if f == nil {
+			if len(dropped) > 0 {
+				continue // decided per harness in runCheck
+			}
 			return nil, fmt.Errorf("stub replacement %s not found", repl)
 		}
 		P.stubs[callee] = f
 	}
-	return &Loaded{P: P, pkgs: pkgs, overlay: ov, overlayFiles: files}, nil
+	return &Loaded{P: P, pkgs: pkgs, overlay: ov, overlayFiles: files, dropped: dropped}, nil
 }
 
 func defaultInitAllow() map[string]bool {
@@ -389,7 +440,7 @@ func runCheck(id, tier string, workers int, only string, noReplay, verbose bool)
 	if sc.TimeBudgetS != nil && sc.TimeBudgetS[tier] > 0 {
 		totalBudget = sc.TimeBudgetS[tier]
 	}
-	for _, hs := range sc.Harnesses {
+	for hi, hs := range sc.Harnesses {
 		if only != "" && !strings.Contains(hs.Fn, only) {
 			continue
 		}
@@ -420,15 +471,84 @@ func runCheck(id, tier string, workers int, only string, noReplay, verbose bool)
 		}
 		// harness-specific stubs on top of the sidecar-wide ones
 		ld.P.stubs = map[string]*ssa.Function{}
+		missing := ""
+		if findFunc(ld.P.prog, hs.Fn) == nil {
+			missing = hs.Fn
+		}
 		for callee, repl := range sc.Stubs {
-			ld.P.stubs[callee] = findFunc(ld.P.prog, repl)
+			f := findFunc(ld.P.prog, repl)
+			if f == nil {
+				missing = repl
+				continue
+			}
+			ld.P.stubs[callee] = f
 		}
 		for callee, repl := range hs.Stubs {
 			f := findFunc(ld.P.prog, repl)
 			if f == nil {
-				die(2, "stub replacement %s not found", repl)
+				missing = repl
+				continue
 			}
 			ld.P.stubs[callee] = f
+			// a stub for a function that no longer exists stands for nothing
+			if !strings.Contains(callee, "#") && findFunc(ld.P.prog, callee) == nil {
+				missing = callee
+			}
+		}
+		if missing != "" {
+			if len(ld.dropped) == 0 && !hs.Optional {
+				die(2, "harness %s: %s not found", hs.Fn, missing)
+			}
+			if hs.Optional {
+				fmt.Printf("SKIPPED optional white-box harness %s: %s is not there in the current source\n", shortName(hs.Fn), missing)
+				ld.skipped = append(ld.skipped, shortName(hs.Fn))
+			} else {
+				ld.unavailable = append(ld.unavailable, shortName(hs.Fn)+" (needs "+missing+")")
+			}
+			continue
+		}
+		if d := hs.Discover; d != nil {
+			if findFunc(ld.P.prog, d.Fn) == nil {
+				die(2, "discovery function %s not found", d.Fn)
+			}
+			list := []string{}
+			rounds := d.Rounds
+			if rounds <= 0 {
+				rounds = 3
+			}
+			for round := 0; round < rounds; round++ {
+				dcfg := *cfg
+				dcfg.Harness = d.Fn
+				dcfg.Lists = map[string][]string{d.Name: list}
+				dex := &Explorer{P: ld.P, cfg: &dcfg}
+				dex.run(d.Fn, workers)
+				set := map[string]bool{}
+				for _, k := range list {
+					set[k] = true
+				}
+				for _, r := range dex.results {
+					if r.Outcome.Kind == "engine" || r.Outcome.Kind == "unsupported" {
+						die(2, "discovery pass %s: %s %s", d.Fn, r.Outcome.Kind, r.Outcome.Msg)
+					}
+					for _, k := range r.Touched {
+						set[k] = true
+					}
+				}
+				next := sortedKeys(set)
+				grown := len(next) > len(list)
+				list = next
+				if !grown {
+					break
+				}
+			}
+			if len(list) == 0 {
+				die(2, "discovery pass %s found nothing", d.Fn)
+			}
+			cfg.Lists = map[string][]string{d.Name: list}
+			sc.Harnesses[hi].Lists = cfg.Lists
+			if verbose {
+				fmt.Fprintf(os.Stderr, "discovered %s: %v\n", d.Name, list)
+			}
 		}
 		ex := &Explorer{P: ld.P, cfg: cfg, progress: verbose}
 		if hs.MaxPaths != nil {
@@ -458,7 +578,10 @@ func runCheck(id, tier string, workers int, only string, noReplay, verbose bool)
 		}
 	}
 	if len(sums) == 0 {
-		die(2, "no harness selected")
+		for _, u := range ld.unavailable {
+			fmt.Printf("CHECK-PROBLEM: harness %s does not compile against the current source\n", u)
+		}
+		die(2, "no harness could be run")
 	}
 	return report(id, tier, seed, sc, ld, sums, known, noReplay, verbose, t0, loadTime)
 }
